@@ -28,6 +28,7 @@ def r2_strict_conversion(run, tree):
              "path enumeration + D1", "", floor=4)
     ct.analyse_binary_op(run, tree, "C07.R2", want_strict=(True,))
     check_array_to(run, tree)
+    ct.check_array_constructor(run, tree)
 
 
 def r3_bool_dimensionless(run, tree):
